@@ -98,6 +98,15 @@ def gen_cases(rng, per_type):
                 form = "spaced"       # `- 5`: unary minus applied to the literal token
             cases.append(dict(t=t, v=v, base=base, lit=lit, pos=rng.choice(POS), form=form,
                               sep=sep, lead=lead, up=up))
+    # committed corpus (minimised past failures and hand-picked boundaries) — always replayed
+    cp = os.path.join(common.VERIF, "corpus", "C10", "literals.json")
+    if os.path.exists(cp):
+        for e in json.load(open(cp)):
+            lit = e["lit"]
+            body = lit.lstrip("-")
+            base = {"x": "hex", "o": "oct", "b": "bin"}.get(body[1:2].lower(), "dec") if body.startswith("0") and len(body) > 1 else "dec"
+            cases.append(dict(t=e["t"], v=spec_value(lit), base=base, lit=lit, pos=e["pos"], form="tok", corpus=True,
+                              sep="_" in lit, lead=1 if (base == "dec" and len(body) > 1 and body[0] == "0") else 0))
     for i, c in enumerate(cases):
         c["id"] = i
         assert spec_value(c["lit"]) == c["v"], c
@@ -171,7 +180,11 @@ def coq_cases(name, cs):
     v.append("].")
     v.append("Eval vm_compute in (bad_ids case_model_ok cases).")
     v.append("Eval vm_compute in (bad_ids case_spec_ok cases).")
-    ok, out = common.coq_eval(name, "\n".join(v) + "\n")
+    try:
+        ok, out = common.coq_eval(name, "\n".join(v) + "\n")
+    finally:
+        try: os.remove(os.path.join(common.GEN, "cases_%s.v" % name))
+        except OSError: pass
     lists = re.findall(r"=\s*(\[[^\]]*\]|nil)\s*(?:%\w+)?\s*:\s*list\s+Z", out, re.S)
     if not ok or len(lists) != 2:
         return None, None, out[-1500:]
@@ -253,7 +266,15 @@ def main(run):
                        "the model describes the tree with fixes/C10-literal-base-sign.patch applied (NewNumericValue repaired)",
                        "the unary-minus form `- 5` is not ported: it is checked against the spec oracle only",
                        "printed values are observed through the native (QBE) back end"]
-    ok = run.proof("Props/C10.v")
+    ok = False
+    for attempt in range(4):      # common.grep_gate walks coq/gen while other checks create and delete their cases files there
+        th, ob = list(run.theorems), run.obligations
+        try:
+            ok = run.proof("Props/C10.v")
+            break
+        except FileNotFoundError:
+            run.theorems, run.obligations = th, ob
+            run.proof_failure = ("grep-gate", "coq/gen changed while it was scanned")
     T("proof")
 
     cases = gen_cases(run.rng, per_type)
@@ -279,7 +300,7 @@ def main(run):
     runnable = [c for c in cases if c["acc"] and (c["form"] == "tok" or spaced_value_gate(c))]
     if not thorough:
         # quick tier: all boundary-adjacent cases and a sample of the rest
-        near = [c for c in runnable if min(abs(c["v"] - lo(c["t"])), abs(c["v"] - hi(c["t"]))) <= 3 or c.get("lead")]
+        near = [c for c in runnable if min(abs(c["v"] - lo(c["t"])), abs(c["v"] - hi(c["t"]))) <= 3 or c.get("lead") or c.get("corpus")]
         rest = [c for c in runnable if c not in near]
         runnable = near + run.rng.sample(rest, min(len(rest), 160))
     groups = [runnable[i:i + 20] for i in range(0, len(runnable), 20)]
